@@ -37,7 +37,8 @@ class WorldC13(World):
     SIMULATED = ('1-3 clients constructing and editing species over a shared pool of caller-owned model lists',)
     ASSUMPTIONS = ('the bare polynomial value is taken from a twin species built from the same coefficients with no '
                    'models (C02, not C13, judges the polynomial itself)',
-                   'a coverage model\'s own getter defines its contribution (C17 judges that getter)')
+                   'a coverage model\'s contribution is computed from its definition (zero at zero coverage, the listed slope '
+                   'on each listed interval, continuous), not taken from the model\'s own getter')
     MAX_STEPS = 60
 
     # ------------------------------------------------------------------ gen
@@ -136,10 +137,10 @@ class WorldC13(World):
         if rng.random() < 0.7:
             cond['P'] = rng.choice([1.0, round(10 ** rng.uniform(-3, 2), 5)])
         if rng.random() < 0.4:
-            cond['x'] = round(rng.uniform(0, 1), 3)
+            cond['x'] = rng.choice([round(rng.uniform(0, 1), 3)] * 4 + [0.0, 1.0])       # (a clean surface, a full one)
         for j in NAMES_J:
             if rng.random() < 0.4:
-                cond[j + '_kwargs'] = {'x': round(rng.uniform(0, 1), 3)}
+                cond[j + '_kwargs'] = {'x': rng.choice([round(rng.uniform(0, 1), 3)] * 4 + [0.0, 1.0])}
         return {'c': c, 'op': 'eval', 'args': {'id': k, 'T': T, 'cond': cond,
                                                'q': rng.choice(['CpoR', 'HoRT', 'SoR', 'GoRT', 'all'])}}
 
@@ -349,8 +350,15 @@ class WorldC13(World):
                     tot += -math.log(cond.get('P', 1.0))
             else:
                 if q == 'HoRT':
-                    eff = self.cov.PiecewiseCovEffect('self', d['j'], list(d['iv']), list(d['sl']))
-                    tot += float(eff.get_HoRT(x=self._x_for(d['j'], cond), T=T))
+                    # the excess energy of a coverage effect, from its definition: zero at zero coverage, the listed slope
+                    # on each listed interval (kcal/mol per unit coverage), continuous
+                    x = self._x_for(d['j'], cond)
+                    e, iv, sl = 0.0, list(d['iv']), list(d['sl'])
+                    for i_, (lo_, s_) in enumerate(zip(iv, sl)):
+                        hi_ = iv[i_ + 1] if i_ + 1 < len(iv) else float('inf')
+                        if x > lo_:
+                            e += s_ * (min(x, hi_) - lo_)
+                    tot += e / (self.cov.c.R('kcal/mol/K') * T)
         return tot
 
     def _eval(self, k, sp, r, T, cond, q):
